@@ -90,14 +90,16 @@ ShapeXs(u) == {RZero, ROne, R(-1), <<1, 2>>, <<-1, 2>>, R(3), <<3, 4>>, <<-5, 4>
 Val(pi, r) == [pi |-> pi, r |-> r]
 AutoCase(v, order, size, after, M) == [k |-> "auto", val |-> v, order |-> order, size |-> size, after |-> after, M |-> M]
 AutoVals(n) == {Val(FALSE, r) : r \in {RZero, <<1, 2>>, <<-1, 2>>, R(3), <<1, 8>>, <<25, 2>>, <<12345, 8>>, R(100), <<3, 16>>, <<1, 64>>}
-                                     \cup (IF n = 1 THEN {} ELSE {<<1, 1024>>, R(1234567), <<-7, 4>>, <<5, 1>>, <<999999, 1>>, <<19999995, 10>>})}
+                                     \cup (IF n = 1 THEN {} ELSE {<<1, 1024>>, <<-7, 4>>, <<5, 1>>, <<99, 1>>})}
                \cup {Val(TRUE, r) : r \in {ROne, <<1, 2>>, <<-1, 3>>, <<2, 9>>, <<11, 12>>, R(2), <<1, 7>>, <<17, 16>>, RZero}
                                      \cup (IF n = 1 THEN {} ELSE {<<5, 4>>, <<-3, 2>>, <<1, 12>>, <<7, 6>>})}
 DefaultOrder == Ch("pprpr")
 DefaultSize  == <<4, 5, 3, 6, 4>>
 AutoOrders(u) == {<<Ch("f"), <<8>>>>, <<Ch("rf"), <<3, 3>>>>, <<Ch("p"), <<8>>>>, <<Ch("rp"), <<2, 3>>>>, <<Ch("fr"), <<4, 9>>>>,
                   <<Ch("pr"), <<4>>>>, <<Ch("q"), <<3>>>>, <<Ch("rq"), <<1, 3>>>>, <<<<>>, <<>>>>}
+BigVals(u) == {Val(FALSE, r) : r \in {R(1234567), <<999999, 1>>, <<19999995, 10>>, <<-12345, 8>>, R(100000), <<1, 512>>}}
 AutoGrid(n, Ms) ==
+  {AutoCase(v, os[1], os[2], FALSE, 20) : v \in BigVals(0), os \in {<<Ch("f"), <<8>>>>, <<Ch("rf"), <<3, 3>>>>, <<Ch("ff"), <<5, 7>>>>}} \cup
   {AutoCase(v, DefaultOrder, DefaultSize, a, m) : v \in AutoVals(n), a \in BOOLEAN, m \in Ms}
   \cup {AutoCase(v, os[1], os[2], FALSE, m) : v \in AutoVals(n), os \in AutoOrders(0), m \in Ms}
 AutoListGrid(u) ==
